@@ -302,6 +302,62 @@ macro_rules! rows {
 }
 include!("c18_rows.rs");
 
+// ------------------------------------------------------------------------------------------------
+// Goal level: `ProgramClause::could_match(&DomainGoal)` - what `build_table` / `solve_from_clauses`
+// call. The clause is `forall<X> { head :- }` with leaf arguments (X = ^0.0 among them); a goal is
+// unifiable with the head when it is the same kind of domain goal for the same trait and the
+// arguments unify pairwise.
+fn domain_goal(v: usize, trait_id: u64, k: &Kids) -> DomainGoal<VI> {
+    let tr = TraitRef { trait_id: TraitId(did(trait_id)), substitution: subst(&[ga_ty(k.c0), ga_lt(k.l), ga_ty(k.c1)]) };
+    match v {
+        0 => DomainGoal::WellFormed(WellFormed::Trait(tr)),
+        1 => DomainGoal::FromEnv(FromEnv::Trait(tr)),
+        2 => DomainGoal::LocalImplAllowed(tr),
+        3 => DomainGoal::IsLocal(k.c0),
+        4 => DomainGoal::WellFormed(WellFormed::Ty(k.c0)),
+        _ => DomainGoal::Holds(WhereClause::Implemented(tr)),
+    }
+}
+fn unif_goal(va: usize, ta: u64, ka: &Kids, vb: usize, tb: u64, kb: &Kids) -> bool {
+    if va != vb {
+        return false;
+    }
+    match va {
+        3 | 4 => unif_leaf(ka.c0.kind(I), kb.c0.kind(I)),
+        _ => ta == tb && unif_leaf(ka.c0.kind(I), kb.c0.kind(I)) && unif_leaf(ka.c1.kind(I), kb.c1.kind(I)),
+    }
+}
+fn goal_step(va: usize, vb: usize, la: (usize, usize), lb: (usize, usize)) {
+    let ta = sym::u64();
+    let tb = sym::u64();
+    let ka = kids(la.0, la.1);
+    let kb = kids(lb.0, lb.1);
+    let head = domain_goal(va, ta, &ka);
+    let goal = domain_goal(vb, tb, &kb);
+    let imp = ProgramClauseImplication {
+        consequence: head,
+        conditions: Goals::empty(I),
+        constraints: Constraints::empty(I),
+        priority: ClausePriority::High,
+    };
+    let clause = ProgramClause::new(
+        I,
+        ProgramClauseData(Binders::new(VariableKinds::from1(I, VariableKind::Ty(TyVariableKind::General)), imp)),
+    );
+    let cm = clause.could_match(I, &InvariantDb, &goal);
+    let un = unif_goal(va, ta, &ka, vb, tb, &kb);
+    assert!(!un || cm, "C18: could_match rejected a clause whose head unifies with the goal");
+    cover!(va != vb || (cm && un));
+}
+vharness!(c18_q_goal_wellformed_trait, 8, { goal_step(0, 0, (4, 0), (0, 0)) });
+vharness!(c18_q_goal_fromenv_trait, 8, { goal_step(1, 1, (4, 4), (3, 0)) });
+vharness!(c18_t_goal_local_impl_allowed, 8, { goal_step(2, 2, (0, 4), (0, 1)) });
+vharness!(c18_q_goal_is_local, 8, { goal_step(3, 3, (4, 0), (2, 0)) });
+vharness!(c18_t_goal_mismatched_kinds, 8, { goal_step(0, 1, (4, 0), (0, 0)) });
+// Withdrawn (do not finish within 2400 s): `goal_step(5, 5, ..)` - heads of the form `T: Trait`, i.e.
+// `DomainGoal::Holds(WhereClause::Implemented(..))`, which CBMC cannot read back (DESIGN.md §2.2a) - and
+// `goal_step(4, 4, ..)` (`WellFormed(T)`).
+
 // Argument lists as such (the call shape of `Program::impls_for_trait`: impl header arguments
 // against trait-reference arguments): `[ty, lifetime, const]` with leaf kinds per class.
 fn arg_lists(la: usize, lb: usize) {
